@@ -56,7 +56,12 @@ ALL = [
     ('P37-text-after-a-phonetic-guide-in-the-same-run', ['C07'], lambda: docx(p(r('«1»before '), '<w:r><w:rPr><w:i/></w:rPr><w:t>«2»pre </w:t><w:ruby><w:rubyPr><w:rubyAlign w:val="center"/></w:rubyPr><w:rt><w:r><w:t>«3»kana</w:t></w:r></w:rt><w:rubyBase><w:r><w:t>«4»kanji</w:t></w:r></w:rubyBase></w:ruby><w:t>«5» post</w:t></w:r>', r('«6» after')))),
     # a relationships member that is not well-formed XML: every read raises, and raises again when repeated (no half-filled cache)
     ('P38-relationships-member-not-well-formed', ['C14', 'C15'], lambda: docx(p(r('«1»text')), extra={'word/_rels/footer9.xml.rels': '<Relationships xmlns="x"><Relationship'})),
-    ('P39-display-equation-between-paragraphs-inside-a-comment-range', ['C12'], lambda: docx(p(r('«1»a'), '<w:commentRangeStart w:id="0"/>') + '<m:oMathPara><m:oMath><m:r><m:t>z</m:t></m:r></m:oMath></m:oMathPara>' + p('<w:commentRangeEnd w:id="0"/><w:r><w:commentReference w:id="0"/></w:r>', r('«2»b')) + p(r('«3»c')), comments=COM(0))),
+    ('P39-display-equation-between-paragraphs-inside-a-comment-range', ['C12', 'C02', 'C01'], lambda: docx(p(r('«1»a'), '<w:commentRangeStart w:id="0"/>') + '<m:oMathPara><m:oMath><m:r><m:t>z</m:t></m:r></m:oMath></m:oMathPara>' + p('<w:commentRangeEnd w:id="0"/><w:r><w:commentReference w:id="0"/></w:r>', r('«2»b')) + p(r('«3»c')), comments=COM(0))),
+    # inline content outside every paragraph inside table cells: a stray run before / after the cell's paragraph, in a cell that spans
+    # two columns (its copy holds a copy of the implicit paragraph) and in a vertically continued cell; each stays in its own cell
+    ('P40-stray-runs-in-table-cells', ['C01', 'C02', 'C04', 'C05', 'C19', 'C13'], lambda: docx(p(r('«1»before')) + tbl(
+        tr(tc(r('«2»stray'), p(r('«3»a')), pr='<w:gridSpan w:val="2"/>'), tc(p(r('«4»b')), r('«5»tail'), pr='<w:vMerge w:val="restart"/>')),
+        tr(tc(p(r('«6»c'))), tc(r('«7»only-stray')), tc(p(r('«8»hidden')), pr='<w:vMerge/>'))) + p(r('«9»after')))),
     ('P15-links-different-anchors', ['C10', 'C06'], lambda: docx(p(link('r:id="rId9" w:anchor="a"', r('«1»x')), link('r:id="rId9" w:anchor="b"', r('«2»y'))), docrels=LINK)),
     ('P16-word-word', ['C09'], lambda: docx(p(r('body')), docrels=[('rId2', 'header', 'word/h.xml')], extra={'word/word/h.xml': f'<w:hdr {NS}>' + p(r('head-in-word-word')) + '</w:hdr>'})),
     ('P18-range-end-without-start', ['C13', 'C12'], lambda: docx(p(r('a'), '<w:commentRangeEnd w:id="5"/>', r('b', '<w:b/>')))),
@@ -76,7 +81,7 @@ ALL = [
     ('P31-equation-text-with-markup-characters', ['C07', 'C19'], lambda: docx(p(r('«1»x&lt;y '), '<m:oMath><m:r><m:t>a&lt;b&amp;c</m:t></m:r><m:r><m:t>&amp;lt;</m:t></m:r></m:oMath>', r(' «2»z', '<w:b/>')))),
     ('P32-comment-on-part-of-a-link', ['C12', 'C13'], lambda: docx(p(r('«1»before '), link('r:id="rId9"', r('«2»a '), '<w:commentRangeStart w:id="0"/>', r('«3»linked'), '<w:commentRangeEnd w:id="0"/>'), r('«4» after'),
         '<w:commentRangeStart w:id="1"/>', r('«5»x'), link('r:id="rId9"', r('«6»l2 '), '<w:commentRangeEnd w:id="1"/>', r('«7»more'))), docrels=LINK, comments=COM(0) + COM(1, 'two'))),
-    ('P33-text-box-anchored-inside-a-hyperlink', ['C19'], lambda: docx(p(r('«9»see '), link('r:id="rId9"', r('«1»q ', '<w:b/>'),
+    ('P33-text-box-anchored-inside-a-hyperlink', ['C19', 'C02', 'C10'], lambda: docx(p(r('«9»see '), link('r:id="rId9"', r('«1»q ', '<w:b/>'),
         '<w:r><w:t xml:space="preserve">«2»uni </w:t><w:pict><v:shape><v:textbox><w:txbxContent>' + p(r('«3»boxed ')) + '</w:txbxContent></v:textbox></v:shape></w:pict></w:r>'), r('«4» end')), docrels=LINK)),
     ('P34-markers-in-a-link-merged-with-its-neighbour', ['C12'], lambda: docx(p(r('«1»see '), link('w:anchor="bm"', '<w:commentRangeStart w:id="0"/>', '<w:commentRangeEnd w:id="0"/>', '<w:r><w:commentReference w:id="0"/></w:r>'),
         link('w:anchor="bm"', r('«2»target')), r('«3» end')), comments=COM(0))),
